@@ -99,6 +99,7 @@ inductive Pc
 structure DState where
   stores : List (Nat × Geom × State × Nat) := []   -- sid ↦ geometry, state, content seed
   threads : List (Nat × Pc) := []
+  failNext : Nat := 0   -- `failalloc k`: the next k calls of alloc.Alloc fail
 
 def DState.store? (d : DState) (sid : Nat) : Option (Geom × State × Nat) :=
   (d.stores.find? (·.1 == sid)).map (·.2)
@@ -149,7 +150,7 @@ def snapStr (d : DState) (sid : Nat) (touched : Option (List Nat)) : String :=
 
 def errStr : Err → String
   | .ok => "ok" | .deleted => "deleted" | .odd => "odd" | .beyond => "beyond"
-  | .mismatch => "mismatch"
+  | .mismatch => "mismatch" | .nomem => "nomem"
 
 /-! ### content: the reference bytes of a torrent are a function of (seed, offset) -/
 def contentWord (seed : Nat) (w : Nat) : UInt64 :=
@@ -215,7 +216,10 @@ def resume (d : DState) (pc : Pc) (arg : Option Nat) : Seg :=
     match d.store? sid with
     | none => ⟨d, none, "nostore", []⟩
     | some (g, s, _) =>
-      match addData g s i b blk peer with
+      -- alloc.Alloc is called only when every test passed and the piece has no buffer
+      let fails := allocNeeded g s i b && decide (d.failNext > 0)
+      let d := if fails then { d with failNext := d.failNext - 1 } else d
+      match addDataA g s i b blk peer (!fails) with
       | (s', .add c cpl e) =>
         ⟨d.setStore sid s', none, s!"r:add c={c} cpl={boolStr cpl} e={errStr e}", [i]⟩
       | (s', .panic w) => ⟨d.setStore sid s', none, s!"r:panic {w}", [i]⟩
@@ -391,6 +395,10 @@ def dstep (d : DState) (ws : List String) : DState × String :=
     match mark.toInt?, pairsOf ts, q.startsWith "q:" with
     | some mark, some ts, true => ({}, texRun mark ts act)
     | _, _, _ => (d, "bad-op")
+  | ["failalloc", k] =>
+    match k.toNat? with
+    | some k => ({ d with failNext := k }, "ok")
+    | none => (d, "bad-op")
   | ["end"] =>
     (d, " / ".intercalate (d.stores.map (fun e => s!"S{e.1} " ++ snapStr d e.1 none)))
   | t :: "call" :: sid :: args =>
